@@ -299,7 +299,8 @@ def r5_register_frames(ctx, rule="C05.R5"):
                 inner = [k for k, _ in kinds[i:j]]
                 if "BLOCK" in inner:
                     n += 1
-                    key = "%s:%s:frame-around-user-block" % (rule, fn.name)
+                    # keyed by the construct (ForLoop), not by the name of the private emitter
+                    key = "%s:%s:frame-around-user-block" % (rule, common.generator_construct_of(prog, fn))
                     ctx.decide(unwinding["Jump"], rule, key, fn.loc,
                                "Jump unwinds the register stack",
                                "a register frame brackets a user block in %s, but the VM's Jump "
